@@ -249,7 +249,10 @@ class Components:
             if reg[:2] == (component, info):
                 # already registered
                 return
-            self.unregisterUtility(reg[0], provided, name)
+            if not self.unregisterUtility(reg[0], provided, name):
+                # Refused (a component that is not equal to itself):
+                # overwrite it, as before.
+                break
             # A subscriber of the Unregistered event may have registered
             # something for this name: look again before overwriting it.
             reg = self._utility_registrations.get((provided, name))
